@@ -1036,9 +1036,29 @@ func c09SharedUpstreamSchemaIsReadOnly(r *fw.Run) {
 			docMethods = append(docMethods, fi)
 		}
 	}
-	writesThrough := func(fi *fw.FuncInfo, o types.Object, mutCallee func(*types.Func, int) bool) bool {
+	writesThrough := func(fi *fw.FuncInfo, o0 types.Object, mutCallee func(*types.Func, int) bool) bool {
 		info := fi.Info()
 		found := false
+		// o0 and the locals that are plain copies of it (x := o0): the same document
+		alias := map[types.Object]bool{o0: true}
+		for grew := true; grew; {
+			grew = false
+			fw.WalkAll(fi.Decl.Body, func(nd ast.Node) bool {
+				as, ok := nd.(*ast.AssignStmt)
+				if !ok || len(as.Lhs) != len(as.Rhs) {
+					return true
+				}
+				for i, l := range as.Lhs {
+					lid, isL := l.(*ast.Ident)
+					rid, isR := ast.Unparen(as.Rhs[i]).(*ast.Ident)
+					if isL && isR && alias[info.ObjectOf(rid)] && info.ObjectOf(lid) != nil && !alias[info.ObjectOf(lid)] {
+						alias[info.ObjectOf(lid)] = true
+						grew = true
+					}
+				}
+				return true
+			})
+		}
 		fw.WalkAll(fi.Decl.Body, func(nd ast.Node) bool {
 			if found {
 				return false
@@ -1050,7 +1070,7 @@ func c09SharedUpstreamSchemaIsReadOnly(r *fw.Run) {
 				if _, plain := ast.Unparen(t).(*ast.Ident); plain {
 					continue // re-binding the variable itself is not a write through it
 				}
-				if fw.RootObj(info, t) == o {
+				if alias[fw.RootObj(info, t)] {
 					found = true
 				}
 			}
@@ -1060,12 +1080,12 @@ func c09SharedUpstreamSchemaIsReadOnly(r *fw.Run) {
 					return true
 				}
 				if sel, isSel := ast.Unparen(c.Fun).(*ast.SelectorExpr); isSel {
-					if id, isID := ast.Unparen(sel.X).(*ast.Ident); isID && info.ObjectOf(id) == o && mutCallee(fn, -1) {
+					if id, isID := ast.Unparen(sel.X).(*ast.Ident); isID && alias[info.ObjectOf(id)] && mutCallee(fn, -1) {
 						found = true
 					}
 				}
 				for i, a := range c.Args {
-					if id, isID := ast.Unparen(a).(*ast.Ident); isID && info.ObjectOf(id) == o && mutCallee(fn, i) {
+					if id, isID := ast.Unparen(a).(*ast.Ident); isID && alias[info.ObjectOf(id)] && mutCallee(fn, i) {
 						found = true
 					}
 				}
